@@ -552,3 +552,272 @@ Section Termination.
     apply batch_loop_fuel. rewrite sort_items_length. unfold intrinsic_fuel. lia.
   Qed.
 End Termination.
+
+(* ==================================================================================================================
+   Part B: the exact instance XQ *)
+Local Open Scope Q_scope.
+
+(* neither NaN nor -infinity / additionally not negative *)
+Definition lb (x : XQ) : Prop := match x with Fin _ | PInf => True | _ => False end.
+Definition nn (x : XQ) : Prop := match x with Fin q => 0 <= q | PInf => True | _ => False end.
+
+Lemma nn_lb x : nn x -> lb x.
+Proof. destruct x; simpl; auto. Qed.
+Lemma x_leb_refl_lb x : lb x -> x_leb x x = true.
+Proof. destruct x; simpl; try contradiction; auto. intros _. apply Qle_bool_iff. lra. Qed.
+Lemma x_leb_trans a b c : x_leb a b = true -> x_leb b c = true -> x_leb a c = true.
+Proof.
+  destruct a, b, c; simpl; try discriminate; auto.
+  intros H1 H2. apply Qle_bool_iff in H1. apply Qle_bool_iff in H2. apply Qle_bool_iff. lra.
+Qed.
+Lemma pos_nn b : x_ltb (Fin 0) b = true -> nn b.
+Proof. destruct b; simpl; try discriminate; auto. intro Hx. destruct (Qle_bool q 0) eqn:E; [discriminate|]. apply Qle_bool_false in E. lra. Qed.
+Lemma nn_add a b : nn a -> nn b -> nn (x_add a b).
+Proof. destruct a, b; simpl; try contradiction; auto. intros; lra. Qed.
+Lemma lb_add_nn a b : lb a -> nn b -> lb (x_add a b) /\ x_leb a (x_add a b) = true.
+Proof.
+  destruct a, b; simpl; try contradiction; auto. intros _ Hb. split; [exact I|]. apply Qle_bool_iff. lra.
+Qed.
+Lemma max_lb a b : lb a -> lb (x_max a b) /\ x_leb a (x_max a b) = true.
+Proof.
+  intro Ha. unfold x_max. destruct a; simpl in Ha; try contradiction; cbn [x_is_nan].
+  - destruct b; cbn [x_is_nan]; try (split; [exact I|apply Qle_bool_iff; lra]).
+    + destruct (x_ltb (Fin q) (Fin q0)) eqn:E.
+      * apply x_ltb_fin in E. split; [exact I|]. apply Qle_bool_iff. lra.
+      * split; [exact I|]. apply Qle_bool_iff. lra.
+    + simpl. split; auto.
+  - destruct b; cbn [x_is_nan x_ltb]; split; simpl; auto.
+Qed.
+Lemma max_nn a b : nn a -> nn (x_max a b).
+Proof.
+  intro Ha. unfold x_max. destruct a; simpl in Ha; try contradiction; cbn [x_is_nan].
+  - destruct b; cbn [x_is_nan]; simpl; auto.
+    destruct (negb (Qle_bool q0 q)) eqn:E; simpl; auto.
+    apply negb_true_iff in E. apply Qle_bool_false in E. lra.
+  - destruct b; cbn [x_is_nan x_ltb]; simpl; auto.
+Qed.
+Lemma max0_nn x : nn (x_max (Fin 0) x).
+Proof. apply max_nn. simpl. lra. Qed.
+Lemma nn_div_pos a (k : nat) : nn a -> nn (x_div a (Fin (inject_Z (Z.of_nat (S k))))).
+Proof.
+  assert (Hs : q_sign (inject_Z (Z.of_nat (S k))) = Gt).
+  { unfold q_sign, inject_Z. simpl Qnum. apply Z.compare_gt_iff. lia. }
+  assert (Hp : 0 < inject_Z (Z.of_nat (S k))).
+  { change 0 with (inject_Z 0). rewrite <- Zlt_Qlt. lia. }
+  destruct a; cbn [nn x_div]; try contradiction; rewrite Hs; cbn [nn]; auto.
+  intro Hq. apply Qle_shift_div_l; [exact Hp|lra].
+Qed.
+
+Definition inv (t : track XQ) : Prop :=
+  lb (base_size t) /\ lb (growth_limit t) /\ nn (incurred t) /\ nn (base_planned t) /\ nn (limit_planned t).
+Definition mono (t t' : track XQ) : Prop := x_leb (base_size t) (base_size t') = true.
+
+Lemma mono_refl t : inv t -> mono t t.
+Proof. intros [Hb _]. apply x_leb_refl_lb. exact Hb. Qed.
+Lemma mono_trans a b c : mono a b -> mono b c -> mono a c.
+Proof. unfold mono. apply x_leb_trans. Qed.
+
+Lemma nn_zero : nn (Fin 0).
+Proof. simpl. lra. Qed.
+
+Ltac inv_intro t Hb Hg Hi Hp Hl :=
+  destruct t as [tk tc mn mx off tb gl ic bp lp ig]; unfold inv, mono;
+  cbn [base_size growth_limit incurred base_planned limit_planned]; intros [Hb [Hg [Hi [Hp Hl]]]].
+
+Lemma prim_mono g : Prim false g -> forall t, inv t -> inv (g t) /\ mono t (g t).
+Proof.
+  intros Hg0 t. destruct Hg0.
+  - (* bump *) unfold bump. destruct (aff t); [|intro Hi; split; [exact Hi|apply mono_refl; exact Hi]].
+    cbv zeta. destruct (_ && _) eqn:E; [|intro Hi; split; [exact Hi|apply mono_refl; exact Hi]].
+    apply andb_true_iff in E. destruct E as [E1 _]. xq0.
+    set (y := x_mul inc (p t)) in *. clearbody y. inv_intro t Hb Hg Hi Hp Hl.
+    cbn [set_incurred base_size growth_limit incurred base_planned limit_planned].
+    repeat split; auto. + apply nn_add; [exact Hi|apply pos_nn; exact E1]. + apply x_leb_refl_lb; exact Hb.
+  - (* plan_base *) unfold plan_base. inv_intro t Hb Hg Hi Hp Hl. xq0. cbv zeta.
+    destruct (x_ltb bp ic); cbn; repeat split; auto using nn_zero, x_leb_refl_lb; try lra.
+  - (* plan_limit *) unfold plan_limit. inv_intro t Hb Hg Hi Hp Hl. xq0. cbv zeta.
+    destruct (x_ltb lp ic); cbn; repeat split; auto using nn_zero, x_leb_refl_lb; try lra.
+  - (* flush_base1 *) unfold flush_base1. inv_intro t Hb Hg Hi Hp Hl. xq0. cbn.
+    destruct (lb_add_nn tb bp Hb Hp) as [L1 L2]. repeat split; auto using nn_zero; try lra.
+  - (* assign_inc *) unfold assign_inc. destruct (g t); [|intro Hi; split; [exact Hi|apply mono_refl; exact Hi]].
+    inv_intro t Hb Hg Hi Hp Hl. xq0. cbn. repeat split; auto using x_leb_refl_lb; try lra.
+    apply nn_div_pos. apply max0_nn.
+  - (* span1_item *) unfold span1_item. inv_intro t Hb Hg Hi Hp Hl. xq0.
+    cbn [minf maxf set_base set_limit_planned base_size limit_planned growth_limit incurred base_planned].
+    assert (Hmax : forall c, lb (x_max tb c) /\ x_leb tb (x_max tb c) = true) by (intro c; apply max_lb; exact Hb).
+    assert (Hself : x_leb tb tb = true) by (apply x_leb_refl_lb; exact Hb).
+    assert (Hlp : forall c, nn (x_max lp c)) by (intro c; apply max_nn; exact Hl).
+    destruct mn;
+      repeat match goal with
+             | |- context [if ?c then _ else _] => destruct c
+             end;
+      cbn [base_size growth_limit incurred base_planned limit_planned set_limit_planned set_base];
+      repeat split; auto; try apply Hmax; try apply Hlp; try (apply max_nn; apply Hlp).
+  - (* span1_finish1 *) unfold span1_finish1. inv_intro t Hb Hg Hi Hp Hl. xq0. cbv zeta.
+    repeat match goal with
+           | |- context [if ?c then _ else _] => destruct c eqn:?
+           end;
+      cbn [base_size growth_limit incurred base_planned limit_planned set_limit_planned set_limit set_inf_growable] in *;
+      repeat split; auto using nn_zero, x_leb_refl_lb, nn_lb; try (apply max_lb; exact Hg); try (simpl; lra).
+  - (* fix1 *) unfold fix1. inv_intro t Hb Hg Hi Hp Hl. xq0.
+    destruct (x_ltb gl tb); cbn; repeat split; auto using x_leb_refl_lb; try lra.
+  - (* flush_gl1 *) unfold flush_gl1. inv_intro t Hb Hg Hi Hp Hl. xq0. cbv zeta.
+    repeat match goal with
+           | |- context [if ?c then _ else _] => destruct c eqn:?
+           end;
+      cbn [base_size growth_limit incurred base_planned limit_planned set_limit_planned set_limit set_inf_growable] in *;
+      repeat split; auto using nn_zero, x_leb_refl_lb; try (apply lb_add_nn; assumption); try (simpl; lra).
+  - (* finish1 *) unfold finish1. inv_intro t Hb Hg Hi Hp Hl. xq0.
+    destruct (x_eqb gl PInf); cbn; repeat split; auto using x_leb_refl_lb; try lra.
+Qed.
+
+(* 11.5 never decreases a base size -- whatever the oracle returns (NaN and infinite contributions included) *)
+Theorem intrinsic_monotone contrib inner avail fuel items (ts : list (track XQ)) :
+  Forall inv ts ->
+  Forall inv (resolve_intrinsic_fuelled contrib inner avail fuel items ts) /\
+  Forall2 mono ts (resolve_intrinsic_fuelled contrib inner avail fuel items ts).
+Proof.
+  apply (pw_lift false inv mono mono_refl mono_trans prim_mono _ (pw_resolve contrib inner avail fuel items)).
+Qed.
+
+(* ---- growth limits end up >= base sizes.  invJ: the invariant plus base <= growth limit *)
+Definition invJ (t : track XQ) : Prop := inv t /\ x_leb (base_size t) (growth_limit t) = true.
+
+Lemma x_ltb_false_leb a b : lb a -> lb b -> x_ltb a b = false -> x_leb b a = true.
+Proof.
+  destruct a, b; simpl; try contradiction; auto; try discriminate.
+  intros _ _ Hx. apply negb_false_iff in Hx. exact Hx.
+Qed.
+
+(* the primitives of the growth-limit steps keep base <= growth limit *)
+Lemma prim_limit_side g : Prim true g -> forall t, invJ t -> invJ (g t) /\ True.
+Proof.
+  intros Hg0 t [Hi HJ]. split; [|exact I]. remember true as sd eqn:Es.
+  destruct Hg0 as [aff p prop limit inc|Hc| |Hc|g0 x k|? ? ? ? Hc|Hc|Hc|b|Hc]; subst sd; try discriminate Hc.
+  - (* bump *) split; [apply (prim_mono _ (pr_bump false aff p prop limit inc) t Hi)|].
+    unfold bump. destruct (aff t); [|exact HJ]. cbv zeta. destruct (_ && _); [|exact HJ]. destruct t; exact HJ.
+  - (* plan_limit *) split; [apply (prim_mono _ (pr_plan_limit false) t Hi)|].
+    unfold plan_limit. destruct t. cbn in *. destruct (x_ltb _ _); exact HJ.
+  - (* assign_inc *) split; [apply (prim_mono _ (pr_assign false g0 x k) t Hi)|].
+    unfold assign_inc. destruct (g0 t); [|exact HJ]. destruct t; exact HJ.
+  - (* flush_gl1 *) split; [apply (prim_mono _ (pr_flush_gl false b) t Hi)|].
+    revert Hi HJ. unfold flush_gl1. inv_intro t Hb Hg Hi Hp Hl. xq0. cbv zeta. intro HJ.
+    cbn [base_size growth_limit] in HJ.
+    destruct (x_ltb (Fin 0) lp) eqn:E0; cbn [base_size growth_limit set_limit_planned set_limit set_inf_growable]; [|exact HJ].
+    destruct (x_eqb gl PInf).
+    + apply lb_add_nn; assumption.
+    + eapply x_leb_trans; [exact HJ|]. apply lb_add_nn; assumption.
+Qed.
+
+Lemma Forall_map_impl {A B} (P : A -> Prop) (Q : B -> Prop) (g : A -> B) l :
+  (forall x, P x -> Q (g x)) -> Forall P l -> Forall Q (map g l).
+Proof. intros Hpq Hl. apply Forall_map. eapply Forall_impl; [|exact Hl]. exact Hpq. Qed.
+
+Lemma fix1_J t : inv t -> invJ (fix1 t).
+Proof.
+  intro Hi. split; [apply (prim_mono _ (pr_fix false eq_refl) t Hi)|].
+  revert Hi. unfold fix1. inv_intro t Hb Hg Hi Hp Hl. xq0.
+  destruct (x_ltb gl tb) eqn:E; cbn [base_size growth_limit set_limit].
+  - apply x_leb_refl_lb. exact Hb.
+  - apply x_ltb_false_leb; assumption.
+Qed.
+
+Lemma span1_finish1_J t : inv t -> invJ (span1_finish1 t).
+Proof.
+  intro Hi. split; [apply (prim_mono _ (pr_span1_finish false eq_refl) t Hi)|].
+  revert Hi. unfold span1_finish1. inv_intro t Hb Hg Hi Hp Hl. xq0. cbv zeta.
+  assert (Hlp : x_ltb (Fin 0) lp = true -> lb lp) by (intro E; apply nn_lb; exact Hl).
+  destruct (x_ltb (Fin 0) lp) eqn:E0;
+    cbn [base_size growth_limit set_limit_planned set_limit set_inf_growable].
+  - set (g' := if x_eqb gl PInf then lp else x_max gl lp).
+    assert (Hg' : lb g').
+    { unfold g'. destruct (x_eqb gl PInf); [apply nn_lb; exact Hl|apply max_lb; exact Hg]. }
+    destruct (x_ltb g' tb) eqn:E; cbn [base_size growth_limit set_limit].
+    + apply x_leb_refl_lb. exact Hb.
+    + apply x_ltb_false_leb; assumption.
+  - destruct (x_ltb gl tb) eqn:E; cbn [base_size growth_limit set_limit].
+    + apply x_leb_refl_lb. exact Hb.
+    + apply x_ltb_false_leb; assumption.
+Qed.
+
+Lemma finish1_J t : invJ t -> invJ (finish1 t).
+Proof.
+  intros [Hi HJ]. split; [apply (prim_mono _ (pr_finish false eq_refl) t Hi)|].
+  revert Hi HJ. unfold finish1. inv_intro t Hb Hg Hi Hp Hl. xq0. intro HJ.
+  destruct (x_eqb gl PInf); cbn [base_size growth_limit set_limit] in *; [apply x_leb_refl_lb; exact Hb|exact HJ].
+Qed.
+
+Lemma invJ_inv ts : Forall invJ ts -> Forall inv ts.
+Proof. apply Forall_impl. intros t [Hi _]. exact Hi. Qed.
+
+Section LimitsGeBase.
+  Variable contrib : item XQ -> ckind -> XQ.
+  Variable inner : option XQ.
+  Variable avail : avail_space XQ.
+
+  Lemma pw_before_fix fl ff batch :
+    PW false (fun ts => step_max_content_all contrib fl ff batch
+                          (step_max_content_minimums contrib inner avail fl ff batch
+                             (step_content_minimums contrib inner fl ff batch (step_minimums contrib inner avail fl ff batch ts)))).
+  Proof.
+    apply (pw_comp false (fun ts => step_max_content_minimums contrib inner avail fl ff batch _) (step_max_content_all contrib fl ff batch));
+      [|apply pw_step_max_content_all].
+    apply (pw_comp false (fun ts => step_content_minimums contrib inner fl ff batch _) (step_max_content_minimums contrib inner avail fl ff batch));
+      [|apply pw_step_max_content_minimums].
+    apply (pw_comp false (step_minimums contrib inner avail fl ff batch) (step_content_minimums contrib inner fl ff batch));
+      [apply pw_step_minimums|apply pw_step_content_minimums].
+  Qed.
+
+  Lemma general_batch_J fl ff batch ts : Forall inv ts -> Forall invJ (general_batch contrib inner avail fl ff batch ts).
+  Proof.
+    intro Hi. unfold general_batch. cbv zeta.
+    destruct (pw_lift false inv mono mono_refl mono_trans prim_mono _ (pw_before_fix fl ff batch) ts Hi) as [H4 _].
+    assert (H5 : Forall invJ (fix_growth_limits (step_max_content_all contrib fl ff batch
+                    (step_max_content_minimums contrib inner avail fl ff batch
+                       (step_content_minimums contrib inner fl ff batch (step_minimums contrib inner avail fl ff batch ts)))))).
+    { unfold fix_growth_limits. apply (Forall_map_impl inv invJ fix1); [apply fix1_J|exact H4]. }
+    destruct fl; [exact H5|].
+    assert (Hrefl : forall t, invJ t -> True) by auto.
+    destruct (pw_lift true invJ (fun _ _ => True) (fun _ _ => I) (fun _ _ _ _ _ => I) prim_limit_side _
+                      (pw_step_intrinsic_maximums contrib inner true batch) _ H5) as [H6 _].
+    destruct (pw_lift true invJ (fun _ _ => True) (fun _ _ => I) (fun _ _ _ _ _ => I) prim_limit_side _
+                      (pw_step_max_content_maximums contrib inner true batch) _ H6) as [H7 _].
+    exact H7.
+  Qed.
+
+  Lemma pw_span1_fold batch :
+    PW false (fun ts => fold_left (fun ts it => update_nth (S (it_start it)) (span1_item contrib inner avail it) ts) batch ts).
+  Proof.
+    apply (pw_fold false (fun it => update_nth (S (it_start it)) (span1_item contrib inner avail it))).
+    intro it. apply pw_nth. apply pr_span1_item. reflexivity.
+  Qed.
+
+  Lemma span1_batch_J batch ts : Forall inv ts -> Forall invJ (span1_batch contrib inner avail batch ts).
+  Proof.
+    intro Hi. unfold span1_batch, span1_finish.
+    destruct (pw_lift false inv mono mono_refl mono_trans prim_mono _ (pw_span1_fold batch) ts Hi) as [H1 _].
+    apply (Forall_map_impl inv invJ span1_finish1); [apply span1_finish1_J|exact H1].
+  Qed.
+
+  Lemma process_batch_J ffs batch fl ts : Forall inv ts -> Forall invJ (process_batch contrib inner avail ffs batch fl ts).
+  Proof.
+    intro Hi. unfold process_batch. cbv zeta. destruct (negb fl && _); [apply span1_batch_J|apply general_batch_J]; exact Hi.
+  Qed.
+
+  Lemma batch_loop_J ffs items fuel : forall off ts, Forall invJ ts -> Forall invJ (batch_loop contrib inner avail fuel ffs off items ts).
+  Proof.
+    induction fuel as [|f IH]; intros off ts HJ; cbn [batch_loop]; [exact HJ|].
+    destruct (next_batch off items) as [[next fl]|]; [|exact HJ]. cbv zeta.
+    assert (HP : Forall invJ (process_batch contrib inner avail ffs (firstn (next - off) (skipn off items)) fl ts))
+      by (apply process_batch_J; apply invJ_inv; exact HJ).
+    destruct fl; [exact HP|]. apply IH. exact HP.
+  Qed.
+
+  (* after 11.5 every growth limit is at least the base size, given that this held after 11.4 *)
+  Theorem intrinsic_limits_ge_base fuel items ts :
+    Forall invJ ts -> Forall invJ (resolve_intrinsic_fuelled contrib inner avail fuel items ts).
+  Proof.
+    intro HJ. unfold resolve_intrinsic_fuelled, finish_infinite_limits. cbv zeta.
+    apply (Forall_map_impl invJ invJ finish1); [apply finish1_J|]. apply batch_loop_J. exact HJ.
+  Qed.
+End LimitsGeBase.
